@@ -154,6 +154,11 @@ def check_session_key(rep, prog):
                     rep.check(ok, 'C13.2', construct, '%s: session key = %s' % (scen, k_data),
                               'when no session key is supplied it must be <cipher>.gen_key() of the cipher the data is encrypted with, '
                               'generated inside this call', where=fi.where, expected='%s.gen_key()' % alg_data, found=k_data, scenario=scen)
+                if cls == 'PGPMessage':
+                    spec = [v for p, v, l, _ in d['state'].stores if p == d['esk_obj'] + '.s2k.specifier']
+                    rep.check(len(spec) == 1 and spec[0] in ('3', '1', 'String2KeyType.Iterated', 'String2KeyType.Salted'), 'C13.2', construct,
+                              '%s: S2K specifier %s' % (scen, spec), 'the passphrase packet must use a salted S2K so that the fresh salt takes effect '
+                              '(RFC 4880 5.3: the IV is zero)', where=fi.where, scenario=scen, expected='3 (iterated and salted)', found=spec)
                 # cipher recorded in the ESK is the cipher used
                 rep.check(d['esk_alg'] == [alg_data], 'C13.2', construct, '%s: ESK cipher %s, data cipher %s' % (scen, d['esk_alg'], alg_data),
                           'the session-key packet must name the cipher the data is encrypted with', where=fi.where, scenario=scen,
@@ -222,6 +227,10 @@ def check_keyblob(rep, prog):
                   found=iv)
         rep.check(len(salt) == 1 and taint.is_urandom_of(salt[0], 8, fi.module), 'C13.2', 'PrivKey.encrypt_keyblob', 'salt = %s' % salt,
                   'key protection must draw a fresh 8-octet salt', where=fi.where, expected='self.s2k.salt = os.urandom(8)', found=salt)
+        spec = [v for p, v, l, _ in s.stores if p == 'self.s2k.specifier']
+        rep.check(len(spec) == 1 and spec[0] in ('3', '1', 'String2KeyType.Iterated', 'String2KeyType.Salted'), 'C13.2', 'PrivKey.encrypt_keyblob',
+                  'S2K specifier %s' % spec, 'key protection must use a salted S2K so that the fresh salt takes effect', where=fi.where,
+                  expected='String2KeyType.Iterated', found=spec)
         enc = taint.calls_named(s, '_encrypt')
         ok = len(enc) == 1 and len(enc[0][1]) == 4 and not enc[0][2] and [taint.qualify_urandom(enc[0][1][3], fi.module)] == iv and \
             enc[0][1][2] == 'enc_alg'
@@ -267,6 +276,15 @@ def check_ecdh(rep, prog):
                 not any(x in pts[0].replace(v, '<EPH>') for x in ('generate(', 'generate_private_key('))
         rep.check(ok, 'C13.2', 'ECDHCipherText.encrypt', 'public point %s' % (pts[0][:80] if pts else None),
                   'the ephemeral public point in the packet must belong to the ephemeral key that was used', where=fi.where, scenario=scen)
+        # the ephemeral private key is used for its public point and the exchange only: it is not kept anywhere
+        kept = []
+        for p, val, l, _ in s.stores:
+            rest = re.sub(re.escape(v) + r'\.(public_key|exchange)\(', '<USE>(', taint.expand_objs(s, val))
+            if v in rest:
+                kept.append('%s = %s' % (p, val[:80]))
+        r = re.sub(re.escape(v) + r'\.(public_key|exchange)\(', '<USE>(', render(s.ret) if s.ret is not None else '')
+        rep.check(not kept and v not in r, 'C13.2', 'ECDHCipherText.encrypt', 'ephemeral key kept: %s' % kept,
+                  'the ephemeral private key must not outlive the call (it is single-use)', where=fi.where, scenario=scen, found=kept)
         # the peer is the recipient's public key
         peer = ex[0][1][-1] if ex[0][1] else None
         rep.check(peer == 'pk.keymaterial.__pubkey__()', 'C13.2', 'ECDHCipherText.encrypt', 'peer %s' % peer,
@@ -284,17 +302,19 @@ def check_confinement(rep, prog):
         ('pgpy.packet.packets', 'IntegrityProtectedSKEDataV1', 'encrypt', ('self', K, 'alg', 'data'), None, K),
         ('pgpy.packet.fields', 'ECDHCipherText', 'encrypt', ('cls', 'pk'), [K], K),
         ('pgpy.packet.fields', 'RSACipherText', 'encrypt', ('cls', 'encfn'), [K], K),
+        ('pgpy.symenc', None, '_encrypt', ('pt', K, 'alg', 'iv'), None, K),
     ]
     for mod, cls, meth, roles, va, name in targets:
-        fi = prog.method(mod, cls, meth)
+        fi = prog.method(mod, cls, meth) if cls is not None else prog.function(mod, meth)
         rep.saw(fn=fi)
-        construct = '%s.%s' % (cls, meth)
+        construct = '%s.%s' % (cls, meth) if cls is not None else meth
+        gl = set(x for n in ast.walk(fi.node) if isinstance(n, (ast.Global, ast.Nonlocal)) for x in n.names)
         bind = {'self.is_encrypted': Const(False), 'message.is_encrypted': Const(False)}
         args = {'sessionkey': Sym('sessionkey', nonnull=True)}
         outs = run_roles(prog, fi, roles, vararg=va, kwarg='prefs', args=args, bind=bind)
         bad = []
         for s in outs:
-            for kind, text, line in taint.leaks(s, name, CARRIERS, sanitizers=SANITIZERS):
+            for kind, text, line in taint.leaks(s, name, CARRIERS, sanitizers=SANITIZERS, global_names=gl):
                 if (kind, text) not in [(b[0], b[1]) for b in bad]:
                     bad.append((kind, text, line))
         if cls in ('PGPMessage', 'PGPKey'):
